@@ -118,7 +118,11 @@ ArriveAlarm(s) ==
 Arrive(s) ==
    IF ~Monitors THEN s ELSE
    LET fp == CurFp  ap == CurAp
-       s1 == IF pc \in RT.entries /\ s.byjump /\ pc \notin RT.terminals
+       \* a jump to a function entry opens an activation - unless it is the back edge of a loop that starts the function
+       \* body (unchecked builds have no prologue, so `func_f` and `loop_k` can be one address): a call always moves fp
+       \* below the caller's return address, a back edge leaves fp where the activation was opened
+       sameframe == Len(s.acts) > 0 /\ s.acts[Len(s.acts)].fp = fp
+       s1 == IF pc \in RT.entries /\ s.byjump /\ pc \notin RT.terminals /\ ~sameframe
              THEN [s EXCEPT !.acts = Append(@, [fp |-> fp, ap |-> ap])] ELSE s
        \* entering a loop from above (fall-through or forward jump) starts a new loop instance
        loops == IF s.from < pc THEN StemIds("loop") ELSE {}
